@@ -1502,3 +1502,11 @@ for _i in [1, 2, 3, 4, 5, 6, 7, 8, 10, 11, 12, 13, 14, 15, 16, 17, 18, 19, 20]:
 # ------------------------------------------------------------------------------- C07 chain enumeration with one merged link loop (refactor round 2)
 V("rf-c07-chain-merged-loop", "C07", "silent", UT, _C07_CH, "        for k in range(p - 1):\n            if k < i:\n                A[k + 1, k] = 1\n            else:\n                A[k, k + 1] = 1\n", what="the two inner loops merged into one loop over the links")
 V("rf-c07-chain-merged-loop-le", "C07", "fire", UT, _C07_CH, "        for k in range(p - 1):\n            if k <= i:\n                A[k + 1, k] = 1\n            else:\n                A[k, k + 1] = 1\n", rule="CHAIN.partition", what="merged loop, the link at the root points towards it", accept_inconclusive=True)
+
+# ------------------------------------------------------------------------------- C16 edge lists as comprehensions over index pairs (seed round 9)
+_C16_DE = "    fro, to = np.where(only_directed(A))\n    return list(zip(fro, to))\n"
+V("r9-c16-directed-product", "C16", "silent", UT, _C16_DE, "    return [(i, j) for (i, j) in itertools.product(range(len(A)), repeat=2) if A[i, j] != 0 and A[j, i] == 0]\n", what="directed edges as a comprehension over all ordered pairs")
+V("r9-c16-directed-combinations", "C16", "fire", UT, _C16_DE, "    return [(i, j) for (i, j) in itertools.combinations(range(len(A)), 2) if A[i, j] != 0 and A[j, i] == 0]\n", rule="PW.table", what="unordered pairs: edges from a higher to a lower index are never listed")
+V("r9-c16-undirected-combinations", "C16", "silent", UT, _C16_UE, "    return sorted((j, i) for (i, j) in itertools.combinations(range(len(P)), 2) if P[i, j] != 0 and P[j, i] != 0)\n", what="undirected edges from unordered pairs: one representative each")
+V("r9-c16-weights-product", "C16", "silent", UT, _C16_EW, "    return {(i, j): W[i, j] for (i, j) in itertools.product(range(len(W)), repeat=2) if W[i, j] != 0}\n", what="edge weights as a dict comprehension over all ordered pairs")
+V("r9-c16-weights-product-transposed", "C16", "fire", UT, _C16_EW, "    return {(i, j): W[j, i] for (i, j) in itertools.product(range(len(W)), repeat=2) if W[i, j] != 0}\n", rule="PW.table", what="dict comprehension reading the transposed entry")
